@@ -306,3 +306,15 @@ func (v *VerifManifestFile) Snapshot() (map[uint64]TableManifest, int, int) {
 
 // Close closes the file.
 func (v *VerifManifestFile) Close() error { return v.mf.close() }
+
+// VerifSetManifestRewriteThreshold lowers the number of recorded deletions after which the MANIFEST
+// is rewritten (production: 10000), so that workloads of a few hundred flushes and compactions
+// reach the rewrite path.
+func (db *DB) VerifSetManifestRewriteThreshold(n int) {
+	if db.manifest == nil {
+		return
+	}
+	db.manifest.appendLock.Lock()
+	db.manifest.deletionsRewriteThreshold = n
+	db.manifest.appendLock.Unlock()
+}
